@@ -210,7 +210,23 @@ func runC20_2(c *core.Ctx) {
 		if r, ok := ip.Decl.Body.List[0].(*ast.ReturnStmt); ok && len(r.Results) == 1 {
 			if and, ok := ast.Unparen(r.Results[0]).(*ast.BinaryExpr); ok && and.Op == token.LAND {
 				x, y, op, ok1 := flow.Cmp(and.X)
-				pos := ok1 && op == token.GTR && flow.ObjOf(ip.Info, x) == types.Object(ip.param(0)) && flow.ConstOf(ip.Info, y) != nil && constant.Sign(flow.ConstOf(ip.Info, y)) == 0
+				// n > 0, n >= 1, 0 < n, 1 <= n
+				pos := false
+				if ok1 {
+					isN := func(e ast.Expr) bool { return flow.ObjOf(ip.Info, e) == types.Object(ip.param(0)) }
+					cst := func(e ast.Expr) (int64, bool) {
+						if cv := flow.ConstOf(ip.Info, e); cv != nil {
+							return constant.Int64Val(constant.ToInt(cv))
+						}
+						return 0, false
+					}
+					if k, isC := cst(y); isC && isN(x) {
+						pos = (op == token.GTR && k == 0) || (op == token.GEQ && k == 1)
+					}
+					if k, isC := cst(x); isC && isN(y) {
+						pos = (op == token.LSS && k == 0) || (op == token.LEQ && k == 1)
+					}
+				}
 				l, r2, op2, ok2 := flow.Cmp(and.Y)
 				mask := false
 				if ok2 && op2 == token.EQL && flow.ConstOf(ip.Info, r2) != nil && constant.Sign(flow.ConstOf(ip.Info, r2)) == 0 {
